@@ -25,6 +25,19 @@ impl Right {
     }
 }
 
+/// Reads a length-prefixed vector of bytes, checking the announced length
+/// against the remaining input *before* allocating it.
+pub(crate) fn read_vec_checked(de: &mut Deserializer) -> Result<Vec<u8>, Error> {
+    let len = Deserializer::new(de.value()).read_leb128_u64()?;
+    let remaining = de.value().len();
+    if len > remaining as u64 {
+        return Err(Error::ConversionFailed(format!(
+            "vector of {len} bytes announced but only {remaining} bytes left"
+        )));
+    }
+    de.read_vec().map_err(Error::from)
+}
+
 impl Deref for Right {
     type Target = [u8];
 
@@ -57,7 +70,7 @@ impl Serializable for Right {
     }
 
     fn read(de: &mut Deserializer) -> Result<Self, Self::Error> {
-        let bytes = de.read_vec()?;
+        let bytes = read_vec_checked(de)?;
         Ok(Self(bytes))
     }
 }
